@@ -586,8 +586,22 @@ func c03r5(c *Ctx) {
 func c03r6(c *Ctx) {
 	s := getStoreRoles(c.P)
 	n := 0
-	for f := range s.constructors {
-		if f.Type.Results == nil || f.Type.Results.NumFields() != 3 {
+	var forms []*ir.Func
+	for raw := range s.constructors {
+		if raw.Type.Results == nil || raw.Type.Results.NumFields() != 3 {
+			continue
+		}
+		// as written, and with bracket helpers and the literals handed to them expanded
+		// (`guardInit(db, func() error { … })`); the first form that shows the reopening path is judged
+		forms = append(forms, raw, c.P.Expand(raw, ir.ExpandOpt{Key: "all"}))
+	}
+	judged := map[*ir.Func]bool{}
+	for _, f := range forms {
+		base := f
+		if f.Base != nil {
+			base = f.Base
+		}
+		if judged[base] {
 			continue
 		}
 		g := f.Graph()
@@ -614,18 +628,48 @@ func c03r6(c *Ctx) {
 				continue // initialising path (state computed by applying the first block and flushed)
 			}
 			n++
+			judged[base] = true
 			c.VisitGraph(f)
 			ob := c.Ob(f, "tip-from-height-and-best-index", rs.Pos())
 			good := false
 			if len(defCall.Args) == 1 {
 				if sel, ok := ast.Unparen(defCall.Args[0]).(*ast.SelectorExpr); ok && sel.Sel.Name == "ID" {
 					if bi, _ := tupleDef(f, f.ObjOf(sel.X)); bi != nil && f.Callee(bi) != nil && f.Callee(bi).Name() == "BestIndex" && len(bi.Args) == 1 {
+						keyHeight := c.P.Package("chain").Types.Scope().Lookup("keyHeight")
 						if hc, ok := ast.Unparen(bi.Args[0]).(*ast.CallExpr); ok && f.Callee(hc) != nil {
 							hf := c.P.FuncOf(f.Callee(hc))
-							keyHeight := c.P.Package("chain").Types.Scope().Lookup("keyHeight")
 							if hf != nil && hf.MentionsObj(hf.Body, false, keyHeight) {
 								good = true
 							}
+						}
+						// (the height getter expanded in place: the argument is computed from the stored Height key)
+						if !good {
+							var seen func(e ast.Expr, depth int) bool
+							seen = func(e ast.Expr, depth int) bool {
+								if f.MentionsObj(e, false, keyHeight) {
+									return true
+								}
+								if depth > 3 {
+									return false
+								}
+								hit := false
+								ast.Inspect(e, func(y ast.Node) bool {
+									if id, isID := y.(*ast.Ident); isID && !hit {
+										for _, d := range wholeDefs(f, f.ObjOf(id)) {
+											if d.RHS != nil && seen(d.RHS, depth+1) {
+												hit = true
+											} else if d.RHS == nil {
+												if rhs := ir.TupleRHS(d.Stmt); rhs != nil && seen(rhs, depth+1) {
+													hit = true
+												}
+											}
+										}
+									}
+									return !hit
+								})
+								return hit
+							}
+							good = seen(bi.Args[0], 0)
 						}
 					}
 				}
